@@ -146,12 +146,27 @@ fn run_history(env: &Env, h: &History, st: &mut Stats) -> Vec<Violation> {
         let mut before_cwd = Snap::new();
         snapshot(&cwd, "", &mut before_cwd);
         let a: Vec<&str> = args.iter().map(|s| s.as_str()).collect();
-        let out = e2e::run_solstat(env, &cwd, &a);
+        // every other history gives the child a private, empty TMPDIR on the same file system (snapshotted);
+        // the others inherit the default one, which lives on another file system than the working directory
+        let private_tmp = (h.runs + h.stale + h.cwd_kind) % 2 == 0;
+        let tmpdir = sc.path.join("tmpdir");
+        if private_tmp {
+            std::fs::create_dir_all(&tmpdir).unwrap();
+        }
+        let out = e2e::run_solstat_tmp(env, &cwd, &a, if private_tmp { Some(&tmpdir) } else { None });
         st.count("binary_runs");
         st.evaluations += 1;
         if out.code != Some(0) {
-            st.count("discarded_run_failed_(C04/C16_domain)");
-            return vec![];
+            // every eligible file of the tree parses: the run has to succeed and leave its report
+            return vec![Violation::new("history", "run-fails", format!("solstat exits with {:?} on a tree whose eligible files all parse: {}", out.code, out.stderr), case)];
+        }
+        if private_tmp {
+            let mut t = Snap::new();
+            snapshot(&tmpdir, "", &mut t);
+            if !t.is_empty() {
+                return vec![Violation::new("history", "temporary-file-left-behind", format!("files left in TMPDIR after the run: {:?}", t.keys().take(3).collect::<Vec<_>>()), case)];
+            }
+            st.count("runs_with_private_tmpdir");
         }
         let mut after_tree = Snap::new();
         snapshot(&root, "", &mut after_tree);
